@@ -283,15 +283,15 @@ class NumpyArrayWrapper(object):
             array = self.read_array(unpickler, ensure_native_byte_order)
 
         # Manage array subclass case
-        if hasattr(array, "__array_prepare__") and self.subclass not in (
-            unpickler.np.ndarray,
-            unpickler.np.memmap,
-        ):
-            # We need to reconstruct another subclass
-            new_array = unpickler.np.core.multiarray._reconstruct(
-                self.subclass, (0,), "b"
-            )
-            return new_array.__array_prepare__(array)
+        if self.subclass not in (unpickler.np.ndarray, unpickler.np.memmap):
+            if hasattr(array, "__array_prepare__"):
+                # We need to reconstruct another subclass
+                new_array = unpickler.np.core.multiarray._reconstruct(
+                    self.subclass, (0,), "b"
+                )
+                return new_array.__array_prepare__(array)
+            # numpy >= 2 removed __array_prepare__
+            return array.view(self.subclass)
         else:
             return array
 
